@@ -19,10 +19,10 @@ import (
 
 type tracer struct {
 	rangeOf map[string][]string // loop variable -> the string literals it ranges over
-	ev    []string
-	stack map[string]bool
-	depth int
-	cur   []*ast.FuncDecl // the functions being traced, innermost last
+	ev      []string
+	stack   map[string]bool
+	depth   int
+	cur     []*ast.FuncDecl // the functions being traced, innermost last
 }
 
 // localString: the string literal a local variable of the function being traced is initialised with (query := "SELECT …")
@@ -510,6 +510,9 @@ var traceRoots = []traceRoot{
 	{"db.MailboxExistsPerUser", "db", "MailboxExistsPerUser"},
 	{"db.GetUnseenCountPerUser", "db", "GetUnseenCountPerUser"},
 	{"db.GetMessageCountPerUser", "db", "GetMessageCountPerUser"},
+	{"extension.HandleIdle", "extension", "HandleIdle"},
+	{"extension.HandleNoop", "extension", "HandleNoop"},
+	{"server.announceNewMessages", "server", "IMAPServer.announceNewMessages"},
 }
 
 // ---------- deadlines ----------
@@ -557,7 +560,7 @@ func durationMs(pkg string, e ast.Expr, depth int) (int64, string, bool) {
 	return -1, "", false
 }
 
-var pkgVars = map[string]ast.Expr{}   // pkg.Name -> initialiser (package-level var / const)
+var pkgVars = map[string]ast.Expr{}     // pkg.Name -> initialiser (package-level var / const)
 var pkgFiles = map[string][]*ast.File{} // filled by loadVars
 
 func deadlines() []deadlineFact {
